@@ -28,6 +28,7 @@ import (
 	"github.com/itchyny/gojq"
 
 	"verifharness/common"
+	"verifharness/samequery"
 )
 
 func hexs(s string) string { return "s" + common.Hex(s) }
@@ -687,7 +688,7 @@ func main() {
 
 	// ---------- string positions ---------------------------------------------------------------
 	strStreams(ctx, e, subs, invalid)
-	sameQueryOracle(ctx)
+	samequery.Run(ctx)
 	ctx.Finish()
 }
 
